@@ -19,6 +19,10 @@ type SwComponents[I ISwComponent] struct {
 
 func (o SwComponents[I]) Validate() error {
 	for i, sc := range o.values {
+		if isNilComponent(sc) {
+			return fmt.Errorf("failed at index %d: %w: nil software component", i, ErrWrongSyntax)
+		}
+
 		if err := sc.Validate(); err != nil {
 			return fmt.Errorf("failed at index %d: %w", i, err)
 		}
@@ -31,6 +35,10 @@ func (o SwComponents[I]) Values() ([]ISwComponent, error) {
 	ret := make([]ISwComponent, len(o.values))
 
 	for i, sc := range o.values {
+		if isNilComponent(sc) {
+			return nil, fmt.Errorf("failed at index %d: %w: nil software component", i, ErrWrongSyntax)
+		}
+
 		if err := sc.Validate(); err != nil {
 			return nil, fmt.Errorf("failed at index %d: %w", i, err)
 		}
@@ -101,4 +109,11 @@ func validateAndConvert[I ISwComponent](vals []ISwComponent) ([]I, error) {
 	}
 
 	return ret, nil
+}
+
+// isNilComponent reports whether sc is a nil pointer, which is what decoding
+// a null array entry produces.
+func isNilComponent[I ISwComponent](sc I) bool {
+	v := reflect.ValueOf(sc)
+	return !v.IsValid() || (v.Kind() == reflect.Pointer && v.IsNil())
 }
